@@ -2,7 +2,8 @@
 From Coq Require Import List NArith Bool.
 Import ListNotations.
 From Rustun Require Import Base.Tlv Codec.MsgType Codec.EncodeInto Codec.EncodeMsg Codec.AttrValue Proofs.AttrValueProofs
-                           Codec.Wire Codec.WireFull Codec.Message Codec.Ignored Proofs.IgnoredProofs.
+                           Codec.Wire Codec.WireFull Codec.Message Codec.Ignored Proofs.IgnoredProofs
+                           Rfc.RfcLayout Proofs.RfcLayoutProofs.
 Open Scope N_scope.
 
 (* the 14-bit message type: MessageType::as_u16 / From<u16> equal the RFC 8489 bit layout
@@ -34,3 +35,61 @@ Example C02_ignored_nonvacuous :
   same_outside (msg_mask ex_b) ex_b ex_b' = true /\ diff_bits ex_b ex_b' = 54 /\
   decode_typed ex_b = DOk 56 [(1, VOk (AvAddr false 32853 [192;0;2;1])); (9, VOk (AvErr 401 [85;110;97;117;116;104])); (24, VOk (AvEven true))].
 Proof. vm_compute. repeat split; reflexivity. Qed.
+
+(* ---- the independent reference: Rfc/RfcLayout.v writes every RFC figure as a list of bit fields (width, value), most
+   significant bit first, sharing nothing with the codec model but the types of the values; the theorems below say that
+   the codec model (which the correspondence suites compare with the implementation byte for byte on every run) produces
+   exactly the octets of the figures *)
+
+(* the IANA type codes: the registry of the model is the table of 38 codes, each once *)
+Theorem C02_type_codes : forall ty, av_registry ty <> None <-> In ty (map fst rfc_type_codes).
+Proof. exact RfcLayoutProofs.rfc_registry_table. Qed.
+Print Assumptions C02_type_codes.
+Theorem C02_type_codes_count : length rfc_type_codes = 38%nat /\ NoDup (map fst rfc_type_codes).
+Proof. exact RfcLayoutProofs.rfc_type_codes_count. Qed.
+Print Assumptions C02_type_codes_count.
+
+(* the header (RFC 8489 figures 2 and 3): two zero bits, M11..M7 C1 M6..M4 C0 M3..M0, 16-bit length, magic cookie,
+   96-bit transaction id — every method, class, length and id *)
+Theorem C02_header : forall method class mlen txid,
+  method < 4096 -> class < 4 -> mlen < 65536 -> length txid = 12%nat -> bytes_ok txid = true ->
+  rfc_bytes (rfc_header method class mlen txid) = header (msg_type_of method class) mlen txid.
+Proof. exact RfcLayoutProofs.rfc_header_eq_model. Qed.
+Print Assumptions C02_header.
+
+(* one attribute (figure 4): 16-bit type, 16-bit length, value, zero padding to a multiple of four *)
+Theorem C02_attribute_tlv : forall ty v,
+  ty < 65536 -> len v < 65536 -> bytes_ok v = true -> rfc_bytes (rfc_attribute ty v) = enc_tlv (ty, v).
+Proof. exact RfcLayoutProofs.rfc_attribute_eq_tlv. Qed.
+Print Assumptions C02_attribute_tlv.
+
+(* every attribute value within its documented limits, all 35 kinds the value encoder writes: big-endian fields, zero
+   reserved bits, XOR-ed port and address (cookie, cookie and transaction id), class / number split, nested
+   password-algorithm entries — the model writes exactly the octets of the RFC figure, in every buffer that is large enough *)
+Theorem C02_value_layout : forall txid ty a,
+  av_wf ty a = true -> length txid = 12%nat -> bytes_ok txid = true ->
+  forall hdr, av_dec_header hdr = VOk txid ->
+  exists v, rfc_value txid ty a = Some v /\ (forall room, len v <= room -> av_enc_attr hdr ty a room = VOk v).
+Proof. exact RfcLayoutProofs.rfc_value_eq_model. Qed.
+Print Assumptions C02_value_layout.
+
+(* FINGERPRINT (the value the encoder computes at the end): CRC xor 0x5354554e as a 32-bit field *)
+Theorem C02_fingerprint_layout : forall hdr ud txid crc, crc < 4294967296 ->
+  rfc_value txid 32808 (AvFp crc) = Some (InputText.be32 (N.lxor crc 1398035790)) /\
+  av_dec_attr ud hdr 32808 (InputText.be32 (N.lxor crc 1398035790)) = VOk (AvFp crc).
+Proof. exact RfcLayoutProofs.rfc_fingerprint_eq. Qed.
+Print Assumptions C02_fingerprint_layout.
+
+(* a whole message: the RFC header with the length of the attribute area, followed by the attribute figures, is the
+   buffer prefix the encoder model produces (C14_encode_into: header ++ enc_tlvs) *)
+Theorem C02_message_layout : forall method class txid (l:list tlv),
+  method < 4096 -> class < 4 -> length txid = 12%nat -> bytes_ok txid = true ->
+  forallb tlv_ok l = true -> forallb (fun a => bytes_ok (snd a)) l = true -> attr_bytes l < 65536 ->
+  rfc_message method class txid l = header (msg_type_of method class) (attr_bytes l) txid ++ enc_tlvs l.
+Proof. exact RfcLayoutProofs.rfc_message_eq_model. Qed.
+Print Assumptions C02_message_layout.
+
+(* RFC 5769 2.2: the XOR-MAPPED-ADDRESS of the sample IPv4 response, computed by the reference *)
+Example C02_rfc5769_xor_mapped :
+  rfc_value [183;231;167;1;188;52;214;134;250;135;223;174] 32 (AvAddr false 32853 [192;0;2;1]) = Some [0;1;161;71;225;18;166;67].
+Proof. vm_compute. reflexivity. Qed.
